@@ -21,7 +21,7 @@ CHECKS = {
         text="Paths.tla is a lexical path algebra written from the POSIX rules; ZipSlip.tla enumerates every entry name of <=3 components over a colliding alphabet x destination shape x entry kind "
              "(nested archives with hostile stems included) and decides with it whether the entry escapes (24k scenarios). Real archives are built for them and extracted on both backends; every "
              "mutating backend call with its path, and a snapshot of the sandbox and of the working directory outside the destination, are judged by ZipSlipTrace.tla, where TLC cleans / joins / tests "
-             "containment itself and requires the 'malicious' kind for escaping entries; names over raw bytes (non-UTF-8 included) go through the same judgement.",
+             "containment itself and requires the 'malicious' kind for escaping entries; names over raw bytes (non-UTF-8 included) go through the same judgement. Destination shapes include the working directory itself; entries resolving to the destination or exactly to its parent form a boundary class that is always run.",
         note="Trusted: TLC, archive/zip to build archives, the gate's record of mutating calls, the no-follow snapshot.",
         technique="TLA+ path algebra + TLC exhaustive scenario enumeration; replay on real archives; TLC trace validation of backend mutations"),
     "C03": dict(
@@ -55,7 +55,7 @@ CHECKS = {
              "recursive listings, sub-directories, glob, predicates, size, hash, copy to file / directory, cp -r with the destination rule, mv) giving class, expected outcome, value, tree and "
              "frame. TLC checks the model's own invariants and action properties exhaustively (well-formed tree, read-only and refused calls change nothing, a copy keeps its source, changes "
              "stay within the frame) and simulates random programs with the expectation of every call. Each program runs on the OS filesystem and on MemMapFs behind the recording gate; outcome, "
-             "value, full tree dump, handle balance, frame and copy-source preservation of every call are judged by TLC (FsModelTrace.tla).",
+             "value, full tree dump, handle balance, frame and copy-source preservation of every call are judged by TLC (FsModelTrace.tla). Every other CopyToDirectory destination is spelt with a trailing separator.",
         note="Trusted: TLC, the harness's own tree dump, MemMapFs/OsFs as backends; calls with kind conflicts or overlapping paths are only held to the frame conditions.",
         technique="TLA+ reference model + TLC exhaustive check and random program simulation; replay on both backends; TLC trace judgement"),
     "C07": dict(
